@@ -50,13 +50,18 @@ impl CleartextSignedMessage {
         key_pw: &Password,
     ) -> Result<Self>
 where {
-        let mut bytes = text.as_bytes();
+        let csf_encoded_text = dash_escape(text);
+
+        // Sign exactly the form of the text that `verify` checks against:
+        // trailing whitespace of each line is not part of the signed data.
+        let signed_text = dash_unescape_and_trim(&csf_encoded_text);
+        let mut bytes = signed_text.as_bytes();
         let signature_text = NormalizedReader::new(&mut bytes, LineBreak::Crlf);
         let hash = config.hash_alg;
         let signature = config.sign(key, key_pw, signature_text)?;
 
         Ok(Self {
-            csf_encoded_text: dash_escape(text),
+            csf_encoded_text,
             hashes: vec![hash],
             signatures: vec![signature],
         })
